@@ -3,7 +3,7 @@ from __future__ import annotations
 
 import ast
 import codecs
-from typing import List, Optional
+from typing import List, Optional, Set
 
 from ..cfg import CFG
 from ..core import AnalysisError, call_name, calls_in, const_str, dotted, is_self_attr, norm, walk_local, first_param
@@ -475,12 +475,42 @@ def cookie_line_rule(ctx, res, rule: str) -> None:
     from .. import rederiv
     idx = ctx.idx
     f = idx.need_func("rope.base.fscommands.read_str_coding")
-    pats = [x for x in walk_local(f.node) if isinstance(x, ast.Assign) and isinstance(x.value, ast.Constant)
-            and isinstance(x.value.value, (bytes, str)) and "coding" in (x.value.value.decode("latin-1") if isinstance(x.value.value, bytes) else x.value.value)]
-    if len(pats) != 1:
+    def resolve(e, depth=0) -> Set[str]:
+        """the pattern texts an expression can stand for: a literal, re.compile(<p>), <p>.decode(...), a local of the
+        function or a constant of the module (every binding)"""
+        if depth > 6:
+            return set()
+        if isinstance(e, ast.Constant) and isinstance(e.value, (bytes, str)):
+            return {e.value.decode("latin-1") if isinstance(e.value, bytes) else e.value}
+        if isinstance(e, ast.Call) and call_name(e) == "compile" and e.args:
+            return resolve(e.args[0], depth + 1)
+        if isinstance(e, ast.Call) and call_name(e) in ("decode", "encode") and isinstance(e.func, ast.Attribute):
+            return resolve(e.func.value, depth + 1)
+        if isinstance(e, ast.Name):
+            out: Set[str] = set()
+            binds = [x.value for x in walk_local(f.node) if isinstance(x, ast.Assign) and any(isinstance(t, ast.Name) and t.id == e.id for t in x.targets)]
+            if not binds:
+                binds = [x.value for x in f.unit.tree.body if isinstance(x, ast.Assign) and any(isinstance(t, ast.Name) and t.id == e.id for t in x.targets)]
+            for b in binds:
+                if b is not e:
+                    out |= resolve(b, depth + 1)
+            return out
+        return set()
+
+    def applied(c) -> Optional[ast.AST]:
+        """the pattern expression of a `re.match(<p>, line)` / `<p>.match(line)` call"""
+        if not (isinstance(c, ast.Call) and call_name(c) == "match" and isinstance(c.func, ast.Attribute)):
+            return None
+        if isinstance(c.func.value, ast.Name) and c.func.value.id == "re":
+            return c.args[0] if c.args else None
+        return c.func.value
+
+    matches = [(c, resolve(applied(c))) for c in ast.walk(f.node) if applied(c) is not None]
+    coding = sorted({p for _, ps in matches for p in ps if "coding" in p})
+    if len(coding) != 1:
         raise AnalysisError("anchor=fscommands.read_str_coding: the constant coding-line pattern not found")
-    v = pats[0].value.value
-    rope_pat = v.decode("latin-1") if isinstance(v, bytes) else v
+    rope_pat = coding[0]
+    pat_line = next(c.lineno for c, ps in matches if rope_pat in ps)
     tok_pat = tokenize.cookie_re.pattern
     uses_match = any(isinstance(c, ast.Call) and call_name(c) == "match" for c in ast.walk(f.node))
     if not uses_match:
@@ -492,25 +522,22 @@ def cookie_line_rule(ctx, res, rule: str) -> None:
         ok, cex, states = eng.included(a, b)
     except rederiv.Undecided as e:
         raise AnalysisError(f"coding-line pattern uses a construct the derivative engine does not model: {e}")
-    res.add(rule, "read_str_coding|cookie-pattern", ok, f"{f.unit.rel}:{pats[0].lineno}",
+    res.add(rule, "read_str_coding|cookie-pattern", ok, f"{f.unit.rel}:{pat_line}",
             f"every line the interpreter takes for an encoding declaration matches rope's pattern ({states} derivative states)" if ok else
             f"the line {cex!r} is an encoding declaration for the interpreter (tokenize.cookie_re) but not for rope: the file is decoded and re-encoded "
             "with the default codec instead of the declared one", counter_example=cex, function=f.qualname)
     # (c) the scan stops at the first line that is neither blank nor a comment -- decided with the same language as
     # tokenize.blank_re
-    consts = {t.id: (x.value.value.decode("latin-1") if isinstance(x.value.value, bytes) else x.value.value)
-              for x in walk_local(f.node) if isinstance(x, ast.Assign) and isinstance(x.value, ast.Constant)
-              and isinstance(x.value.value, (bytes, str)) for t in x.targets if isinstance(t, ast.Name)}
     stops = []
     scfg = CFG(f.node)
     for nd in scfg.nodes:  # an exit from the line loop taken when a `match(<blank pattern>, line)` FAILED (read off the guards)
         if nd.kind != "stmt" or not isinstance(nd.ast, (ast.Return, ast.Break)) or not scfg.loop_guards(nd.id):
             continue
         for t, pol in scfg.guards(nd.id):
-            if not pol and isinstance(t, ast.Call) and call_name(t) == "match" and t.args:
-                a0 = t.args[0]
-                if isinstance(a0, ast.Name) and a0.id in consts and "coding" not in consts[a0.id]:
-                    stops.append((nd.ast, consts[a0.id]))
+            if not pol and applied(t) is not None:
+                for bp in sorted(resolve(applied(t))):
+                    if "coding" not in bp:
+                        stops.append((nd.ast, bp))
     if not stops:
         res.add(rule, "read_str_coding|stops-at-code", False, f"{f.unit.rel}:{f.node.lineno}",
                 "the second line is examined whatever the first line is: `import os` / `# coding: latin-1` declares nothing for the interpreter "
